@@ -215,7 +215,7 @@ impl Scenario for C19 {
             components_stubbed: &["TCP (SimNet)", "EPMD (stub)", "remote node (scripted peer, independent encoder)"],
             assumptions: &["mid-frame delays stay below the read timeout; only idle gaps are long", "the peer's ticks are what a conforming OTP node sends (zero-length frames at its tick period)"],
             fault_prefixes: &["fault.", "net."],
-            expected_probes: &["probe.c19.delivered_send", "probe.c19.delivered_reg_send", "probe.c19.delivered_exit", "probe.c19.delivered_mon_exit", "probe.c19.rpc_reply_delivered", "probe.c19.dropped_unknown_recipient", "probe.c19.survived_junk", "probe.c19.survived_quiet_period", "probe.c19.deregistered_after_fatal", "probe.c19.reconnected", "probe.c19.checkpoint_ok", "probe.c19.near_miss_not_taken_as_reply", "probe.c19.killed_process_prefix_ok", "probe.c19.long_junk_run", "probe.c19.burst_above_mailbox_capacity", "probe.c19.local_operation_failed_without_io", "probe.c19.name_changed_hands", "probe.c19.notices_behind_a_full_mailbox", "probe.c19.stall_inside_a_frame_beyond_the_read_timeout", "probe.c19.local_close_then_connect_again", "probe.c19.second_node_messages_delivered", "probe.c19.second_node_connection_usable", "probe.c19.second_node_rpc_reply_delivered"],
+            expected_probes: &["probe.c19.delivered_send", "probe.c19.delivered_reg_send", "probe.c19.delivered_exit", "probe.c19.delivered_mon_exit", "probe.c19.rpc_reply_delivered", "probe.c19.dropped_unknown_recipient", "probe.c19.survived_junk", "probe.c19.survived_quiet_period", "probe.c19.deregistered_after_fatal", "probe.c19.reconnected", "probe.c19.checkpoint_ok", "probe.c19.near_miss_not_taken_as_reply", "probe.c19.killed_process_prefix_ok", "probe.c19.long_junk_run", "probe.c19.burst_above_mailbox_capacity", "probe.c19.local_operation_failed_without_io", "probe.c19.name_changed_hands", "probe.c19.notices_behind_a_full_mailbox", "probe.c19.stall_inside_a_frame_beyond_the_read_timeout", "probe.c19.local_close_then_connect_again", "probe.c19.second_node_messages_delivered", "probe.c19.second_node_connection_usable", "probe.c19.second_node_rpc_reply_delivered", "probe.c19.frame_length_multiple_of_64_kib"],
         }
     }
 }
@@ -341,11 +341,21 @@ fn build_frame(p: &Plan, k: usize, f: &InFrame, pids: &[Val], rpc_from: &Option<
     };
     let body = match f.kind.as_str() {
         "send" => {
-            let pl = payload("send", k, f.seed);
+            let mut pl = payload("send", k, f.seed);
+            let ctl = Val::tuple(vec![Val::int(2), Val::atom(""), target_pid(f.target)]);
+            if f.seed % 8 == 3 && p.client.chunking != Chunking::Byte {
+                // a frame whose length is a round number (a multiple of 64 KiB or 4 KiB): whoever reads a body
+                // in pieces of such a size meets an empty last piece
+                let unit = if f.seed % 16 == 3 { 1usize << 16 } else { 1 << 12 };
+                let with = |n: usize| Val::tuple(vec![Val::atom("remote"), Val::atom("send"), Val::int(k as i128), Val::Bin(vec![0x5a; n])]);
+                let have = wire::pass_through(&ctl, Some(&with(0))).len();
+                let target = have.div_ceil(unit) * unit * (1 + (f.seed >> 8) as usize % 2);
+                pl = with(target - have);
+            }
             if alive(f.target) {
                 exp.per_proc[f.target as usize].push(Got::Regular(pl.clone()));
             }
-            wire::pass_through(&Val::tuple(vec![Val::int(2), Val::atom(""), target_pid(f.target)]), Some(&pl))
+            wire::pass_through(&ctl, Some(&pl))
         }
         "reg_send" => {
             let pl = payload("reg_send", k, f.seed);
@@ -647,6 +657,9 @@ async fn peer_conn(
                 let rpc_from = ps.lock().unwrap().rpc_from.clone();
                 let frame = wire::with_legacy_ids(p.legacy_ids, || build_frame(&p, k, f, &pids, &rpc_from, &mut exp.lock().unwrap()));
                 if let Some(frame) = frame {
+                    if frame.len() > 4 && (frame.len() - 4) % 65536 == 0 {
+                        w.stat("probe.c19.frame_length_multiple_of_64_kib");
+                    }
                     w.ev(format!("peer: frame {} {} target={}", k, f.kind, f.target));
                     let _ = tx.send(Cmd::Frame(frame));
                 }
